@@ -19,7 +19,7 @@ from vlib.core import safe_repr
 PROP = "C13"
 LEVEL = "exploration"
 EVAL_COUNTER = "ops_judged"
-GATES = ["ops_judged", "ops_raised_expected", "ops_ok", "views_compared", "dup_key_rejections", "type_rejections", "negative_index_writes", "constructions_judged", "construction_rejections_expected"]
+GATES = ["ops_judged", "ops_raised_expected", "ops_ok", "views_compared", "dup_key_rejections", "type_rejections", "negative_index_writes", "constructions_judged", "construction_rejections_expected", "keyfaults_judged"]
 RULE = (
     "operation sequences over KeyedLists built from item universes of k keys x p payloads (self-keyed strings/ints, "
     "tuples and unhashable lists with key function it[0], keyed spec items, int-keyed items, typed KeyedList[T,K]); "
@@ -721,11 +721,83 @@ def judge_constructions(ctx, U, probes):
         ctx.sig("construct", U.name, kind, len(items))
 
 
+class KeyFault(Exception):
+    pass
+
+
+class FaultyKey:
+    """The container's key function, made to raise at its n-th invocation (user code may fail at any call)."""
+
+    def __init__(self, fn):
+        self.fn, self.count, self.arm, self.fired = fn, 0, None, False
+
+    def __call__(self, item):
+        i = self.count
+        self.count += 1
+        if self.arm is not None and i == self.arm:
+            self.arm, self.fired = None, True
+            raise KeyFault(f"key function failed at invocation #{i}")
+        return self.fn(item)
+
+
+def run_keyfaults(ctx, U, probes, params):
+    """
+    "An operation that raises leaves the container exactly as it was" - with the failure coming from the key function:
+    every mutating operation from every start container of <= max_len items, the key function raising at each of the
+    invocations the operation makes.
+    """
+    fk = FaultyKey(U.kf)
+    U.keyfn = fk
+    starts = start_containers(U, params["max_len"])
+    for si, combo in enumerate(starts):
+        ops = all_ops(U, len(combo), pair_limit=params.get("pair_limit", 6), rng=ctx.rng)
+        for oi, op in enumerate(ops):
+            nm, ar = bind(U, op)
+            if nm in ("getslice", "add", "radd"):
+                continue  # (derived containers: the receiver is not written to)
+            # unarmed run: how often is the key function called?
+            items = [U.make(U.specs[i]) for i in combo]
+            l = U.new_container(items)
+            fk.count, fk.arm, fk.fired = 0, None, False
+            try:
+                real_apply(U, l, nm, ar)
+            except Exception:
+                pass
+            calls = fk.count
+            for k in range(min(calls, 8)):
+                items = [U.make(U.specs[i]) for i in combo]
+                l = U.new_container(items)
+                L = list(items)
+                fk.count, fk.arm, fk.fired = 0, k, False
+                try:
+                    r = real_apply(U, l, nm, ar)
+                    surfaced = None
+                except KeyFault as e:
+                    surfaced = e
+                except Exception as e:  # the fault may be turned into another exception
+                    surfaced = e if fk.fired else None
+                fk.arm = None
+                ctx.count("keyfault_runs")
+                if not fk.fired or surfaced is None:
+                    ctx.count("keyfault_not_surfaced")
+                    continue
+                ctx.count("ops_judged")
+                ctx.count("keyfaults_judged")
+                ctx.sig("keyfault", U.name, nm, len(combo), k)
+                bad = compare_view(U, l, L, probes)
+                if bad:
+                    ctx.violation("view_after_raise", f"{U.name}: {nm}{safe_repr(ar, 60)} on {safe_repr(L, 60)} with the key function raising at its invocation #{k} ({type(surfaced).__name__}): "
+                                  f"{bad[0][0]} = {bad[0][1]}, before the call {bad[0][2]} (+{len(bad) - 1} more)",
+                                  features={"universe": U.name, "op": nm, "failure": "key_function", "invocation": min(k, 2), "n": len(combo)}, case=[U.name, "keyfault", list(combo), oi, k])
+
+
 def run(ctx, params):
     U = Universe(params["universe"])
     rng = ctx.rng
     mode = params["mode"]
     probes = make_probes(U)
+    if mode == "keyfaults":
+        return run_keyfaults(ctx, U, probes, params)
     if mode == "exh" and params.get("part", 0) == 0 and params["depth"] == 1 or (mode == "exh" and params.get("part", 0) == 0 and params.get("parts")):
         judge_constructions(ctx, U, probes)
     if mode == "exh":
@@ -792,10 +864,12 @@ def plan(tier, seed):
         for u in UNIVERSES:
             shards.append({"universe": u, "mode": "exh", "depth": 1, "max_len": 3})
             shards.append({"universe": u, "mode": "rand", "histories": 120, "length": 30})
+        shards.append({"universe": "tuple", "mode": "keyfaults", "max_len": 2, "pair_limit": 4})
         for u in ("tuple", "spec", "intkey", "selfstr"):
             for part in range(2):
                 shards.append({"universe": u, "mode": "exh", "depth": 2, "max_len": 2, "pair_limit": 8, "pair_limit2": 4, "stride2": 3, "part": part, "parts": 2})
     else:
+        shards.append({"universe": "tuple", "mode": "keyfaults", "max_len": 3, "pair_limit": 12})
         for u in UNIVERSES:
             for part in range(4):
                 shards.append({"universe": u, "mode": "exh", "depth": 2, "max_len": 3, "pair_limit": 20, "pair_limit2": 6, "stride2": 1, "part": part, "parts": 4})
